@@ -32,7 +32,7 @@ COMPONENTS = {
 }
 ASSUMPTIONS = ["a fresh process registers the same set of codecs before reading (possibly in another order)",
                "verbatim storage is claimed for the builtin text / bytes codecs, not for a user codec registered for str or bytes"]
-PROBES = ["read_after_registration", "read_after_restart", "user_codec_wrote", "verbatim_checked", "pandas_frame",
+PROBES = ["blobs_wiped", "read_after_registration", "read_after_restart", "user_codec_wrote", "verbatim_checked", "pandas_frame",
           "big_string", "legacy_pandas_ref", "lru_wrapped"]
 
 VALS = [["str", ""], ["str", "ascii"], ["str", "é∑漢"], ["str", "line1\r\nline2\rline3\n"], ["str", "\ufeffbom\x00nul\x1a"], ["bigstr", "aé", 1 << 20], ["bytes", ""], ["bytes", "00ff10"],
@@ -64,6 +64,15 @@ def gen_case(streams, tier, avoid):
             ops.append(["register", rng.choice(regs)])
         else:
             ops.append(["restart", rng.randrange(1000)])
+    if cfg.random() < 0.35:
+        # a key read, the blob files removed, a codec registered, the same key written again and read in the same
+        # process (seeded change C17g: nothing remembered about a blob may outlive its files)
+        k = rng.choice(keys)
+        pat = [["store", k], ["fetch", k], ["wipe"], ["register", rng.choice(REGS)], ["store", k], ["fetch", k]]
+        if rng.random() < 0.5:
+            pat.remove(["wipe"])
+        pos = rng.randrange(len(ops) + 1)
+        ops[pos:pos] = pat
     return {"family": "hist", "lru": cfg.random() < 0.25, "vals": vals, "ops": ops}
 
 
@@ -160,6 +169,19 @@ def _segment(case, root, ops, state, reorder_seed):
             for kk in changed_since:
                 changed_since[kk] = True
             log.append(["register", op[1]])
+        elif k == "wipe":
+            # every blob file (and its metadata) is removed behind the store's back: the keys are absent again
+            bdir = os.path.join(root, "int", "blobs")
+            for n in sorted(os.listdir(bdir)):
+                fp = os.path.join(bdir, n)
+                if os.path.isdir(fp) and not os.path.islink(fp):
+                    rmtree(fp)
+                else:
+                    os.unlink(fp)
+            state["written"].clear()
+            changed_since.clear()
+            probe("blobs_wiped")
+            log.append(["wipe"])
         elif k == "store":
             key = op[1]
             spec = case["vals"][key]
